@@ -7,8 +7,8 @@ import registry
 TEXT = {
  "C01": "Bounded model checking of the real column-extraction code (ColumnParsing::extract -> extract_using_regex Split arm -> ValueType::parse) on a split result played by the harness: per shape (pattern matched or not, field present or not, DEFAULT or not) and for every field of <= 1 byte and every DEFAULT value, the column is the literal / NULL / DEFAULT / BOOLEAN-as-existence / own field / one-element array exactly as stated.",
  "C02": "Bounded model checking of the real JSON extraction code (ColumnParsing::extract Json arm -> JsonAccess::get_value -> ValueType::convert_from_json) on harness-built JSON array documents: per column type x leaf kind, for every i64 / u64 / finite f64 / bool payload and every index, the column holds the addressed value typed without coercion, NULL on a type mismatch or JSON null (DEFAULT not used), DEFAULT or NULL only when the path is absent; nested index paths address exactly their element.",
- "C03": "Bounded model checking of ExpressionExecutionEngine::evaluate per operator family and operand-variant shape with fully symbolic payloads (all i64, all f64 bit patterns ...): the solver decides the documented meaning (exact-or-error integer arithmetic, IEEE REAL addition / subtraction, NULL rules, comparisons by value, IS, AND/OR, IN/NOT IN, unary operators, abs, subscripts, INTERVAL cast) for every operand value inside the bound; and of SelectExecutionEngine::execute for one projection: exactly one row, under the projection's name, iff the WHERE value is TRUE.",
- "C04": "Bounded model checking of the real per-group fold kernels (GroupAggregator) under the engine's driver protocol: SUM / AVG / BOOL_AND / BOOL_OR over 3 rows with concrete NULL patterns and symbolic values, PERCENTILE over one value and over all-NULL groups, equal the value by definition. Fold level only: the group table, VARIANCE / STDDEV and PERCENTILE over 2+ values are outside the claim.",
+ "C03": "Bounded model checking of ExpressionExecutionEngine::evaluate per operator family and operand-variant shape with fully symbolic payloads (all i64, all f64 bit patterns ...): the solver decides the documented meaning (exact-or-error integer arithmetic, IEEE REAL addition / subtraction, NULL rules, comparisons by value, IS, AND/OR, IN/NOT IN, unary operators, abs, subscripts, INTERVAL cast) for every operand value inside the bound; and of SelectExecutionEngine::execute for one projection: exactly one row, under the projection's name, iff the WHERE value is TRUE. INT vs REAL comparisons are checked against the exact i64 / f64 order over the full range (c03_cmpx_*).",
+ "C04": "Bounded model checking of the real per-group fold kernels (GroupAggregator) under the engine's driver protocol: SUM / AVG / BOOL_AND / BOOL_OR over 3 rows with concrete NULL patterns and symbolic values, MIN / MAX through the real kernel fold_min_max (3 rows of INT / REAL incl. NaN / BOOLEAN / INTERVAL / TIMESTAMP / 1-byte TEXT: a value of the group that bounds every non-NULL value), the real update_aggregate Min/Max arm over a one-slot group table (thorough), PERCENTILE over one value and over all-NULL groups, equal the value by definition. Fold level only: the group table, VARIANCE / STDDEV and PERCENTILE over 2+ values are outside the claim.",
  "C06": "One inductive step from an arbitrary engine state, decided by the solver: a non-admitted row reaches no engine, emits nothing and moves no counter on all six dispatch paths (SELECT / aggregate follow / aggregate batch, each with and without JOIN). The admission rule of TableDefinition::extract is decided for tables of two columns (each NULL or DEFAULT, NOT NULL flags symbolic).",
  "C07": "One inductive step of LIMIT accounting from every reachable counter state (n and rows-so-far any u8): never more than n rows, emitted rows are a prefix of the engine's output, reached_limit exactly when n rows are out; final aggregate table cut to n; thorough tier adds the real select engine: a DISTINCT duplicate does not use up the LIMIT (rows x, x, y under LIMIT 2).",
  "C08": "Bounded model checking of the real SelectExecutionEngine::execute with DISTINCT over 2-3 rows of one column (any INT / REAL / BOOL / NULL / 1-byte TEXT): a row is emitted exactly when no earlier row has the same value (NULL = NULL, -0.0 = 0.0, NaN = NaN), surviving rows unchanged; composed with C16's 'equal values hash equally'. Multi-column tuples and the aggregate path are outside the claim.",
@@ -16,7 +16,7 @@ TEXT = {
  "C10": "Bounded model checking of the real FollowFileIterator::next over a symbolic growing file: every content of <= 4 bytes x every chunking of the appends x every placement of the reader's polls, decided at once by the solver.",
  "C12": "Bounded model checking of FileExecutor::execute's reading loop (with the real std::io::Lines) over two symbolic files: the engine receives exactly the lines of file 1 then file 2, in order, byte for byte.",
  "C13": "Bounded model checking of the precedence levels the parser consults (Parser::get_token_precedence + the operator table): every pair of operator tokens from two different classes of the statement is ordered as stated, * / and + - share a level. The climbing loop itself (associativity) is outside the claim.",
- "C15": "Bounded model checking: the fold of 3 rows gives the same cell for the arrival order as given, reversed and rotated, for every placement of NULLs tried (concrete patterns) and symbolic values, for SUM / AVG / BOOL_AND / BOOL_OR.",
+ "C15": "Bounded model checking: the fold of 3 rows gives the same cell for the arrival order as given, reversed and rotated, for every placement of NULLs tried (concrete patterns) and symbolic values, for SUM / AVG / BOOL_AND / BOOL_OR, and for MIN / MAX through the real kernel fold_min_max over INT / REAL / BOOLEAN / INTERVAL / TIMESTAMP / 1-byte TEXT.",
  "C16": "Bounded model checking of the real Eq/Ord/Hash implementations of Value and Float: every pair / triple of scalar values of every variant combination is decided by the SAT solver for the order / equality / hash laws; counterexamples are replayed natively.",
  "C17": "Bounded model checking of Value::json_value for INT / REAL / BOOLEAN / NULL: the JSON value is recovered exactly (REAL: same f64, non-finite -> null). The record skeleton of OutputPrinter::print (text / CSV) is outside the claim.",
  "C19": "Bounded model checking of FileExecutor::execute with the interrupt arriving after any number k of consumed lines (k symbolic): no line is consumed afterwards, no error, one final aggregate table over exactly the consumed lines.",
